@@ -81,10 +81,10 @@ def file_hash(paths):
 # build steps
 # ---------------------------------------------------------------------------------------------
 
-def build_tools():
+def build_tools(names=("consts", "lockset")):
     """Translators (Go, stdlib + x/tools from the module cache)."""
     out = {}
-    for name in ("consts", "lockset"):
+    for name in names:
         src = os.path.join(ROOT, "tools", name)
         if not os.path.exists(os.path.join(src, "main.go")):
             continue
@@ -96,10 +96,10 @@ def build_tools():
     return out
 
 
-def regenerate_gen():
+def regenerate_gen(names=("consts", "lockset")):
     """Run the translators on /repo; replace coq/Gen/*.v when the output differs. Returns dict name->(ok, msg)."""
     res = {}
-    tools = build_tools()
+    tools = build_tools(names)
     for name, binp in tools.items():
         target = os.path.join(COQ, "Gen", {"consts": "Consts.v", "lockset": "Accesses.v"}[name])
         tmp = target + ".new"
@@ -542,7 +542,7 @@ def check(pid, tier, seed):
 
     # ---- 1. proof side ----
     with Lock("build"):
-        gen = regenerate_gen()
+        gen = regenerate_gen(tuple(spec.get("translators", ("consts",))))
         gen_fail = [msg for (ok, msg) in gen.values() if not ok]
         proof = check_props(pid, spec)
         ok_ext, msg_ext = build_extraction()
@@ -667,7 +667,8 @@ def check(pid, tier, seed):
                 f = os.path.join(workdir, "shrink.in")
                 open(f, "w").write(cl + "\n")
                 _, rep = run_harness(hbin, comp, seed, 0, tier, workdir, "shrink", replay=f)
-                return any(x["prop"] == pid for x in rep["mons"])
+                _, fresh = split_known(pid, [x for x in rep["mons"] if x["prop"] == pid], findings)
+                return bool(fresh)
             try:
                 body["shrunk_history_line"] = ddmin_history(hbin, m["component"], body["history_line"], still, workdir)
                 f = os.path.join(workdir, "shrunk.in")
